@@ -3,8 +3,11 @@ from ..core import Script
 from .. import tablegen
 from . import C11 as _c11
 
+from . import _nodecommon
+from .. import nodegen
+
 ID = "C12"
-SUITES = ["table"]
+SUITES = ["table", "node"]
 LEAN_MODULES = ["VpnCloud.Proofs.C12"]
 THEOREMS = ["VpnCloud.Proofs.C12." + n for n in ("setClaims_exact", "removeClaims_clears", "housekeep_spec", "lookup_result_mem", "removed_peer_unreachable", "claims_expire")]
 BATCH = 200
@@ -32,8 +35,21 @@ def classify(script, result):
     return None
 
 
-def gen(tier, rng):
+def _gen_base(tier, rng):
     for s in tablegen.claim_sequences(rng.fork("claims"), tier):
         yield s
     for s in tablegen.table_scripts(tier, rng.fork("table")):
         yield s
+
+
+def gen(tier, rng):
+    for x in _gen_base(tier, rng):
+        yield x
+    thorough = tier == "thorough"
+    # node level: peers go silent, restart on the same address, claims follow the last announcement; next hops are always peers
+    r = rng.fork("node")
+    yield nodegen.switch_timeout_script(r, "node-switch-timeout")
+    yield nodegen.restart_script(r, "node-restart", 2)
+    yield nodegen.c15_timeout_script(r, "node-silence", [60, 90, 300], 20, 200)
+
+obs_class, nontrivial_key = _nodecommon.with_node(obs_class, nontrivial_key)
